@@ -1,4 +1,5 @@
 import SockModel.Model.AddrLemmas
+import SockModel.Generated.Funcs
 /-!
 # C13  Address ==, <, hash are lawful and provenance-independent; endpoints agree
 
@@ -349,3 +350,79 @@ example : lt (encode4 [255, 0, 0, 1] 80) (encode4 [127, 0, 0, 1] 80) = false := 
 example : (encode6 (List.replicate 15 0 ++ [1]) 8080 0 4).length = 28 := by decide
 
 end SockModel.Addr
+
+/-! ## Source-derived tie (DESIGN.md §0.7)
+
+`SockModel.Gen.*` (Generated/Funcs.lean) is regenerated on every run by tools/cxx2lean.py from the clang AST of
+the CURRENT /repo/src: SockAddrView::operator< and operator== (address_impl.cpp), memcmp abstracted by its sign.
+Each theorem below states that the generated function and the hand-written model function agree for ALL
+arguments; a change of the C++ function changes the generated definition and the theorem stops checking. -/
+namespace SockModel.Props.C13
+open SockModel SockModel.Addr
+
+/-- what `std::memcmp(a, b, n)` may return for two `n`-byte buffers: any `int` with the sign of the
+unsigned lexicographic comparison -/
+def MemcmpResult (a b : Image) (cmp : Int) : Prop :=
+  (cmp < 0 ↔ ltBytes a b = true) ∧ (cmp = 0 ↔ eqBytes a b = true)
+
+theorem tie_lt (a b : Image) (cmp : Int) (h : MemcmpResult a b cmp) :
+    Gen.SockAddrView_lt a.length b.length cmp = Addr.lt a b := by
+  unfold Gen.SockAddrView_lt Addr.lt
+  by_cases h1 : a.length < b.length
+  · have : (a.length : Int) < (b.length : Int) := by omega
+    simp [h1, this]
+  · by_cases h2 : b.length < a.length
+    · have h3 : ¬ (a.length : Int) < (b.length : Int) := by omega
+      have h4 : (a.length : Int) > (b.length : Int) := by omega
+      simp [h1, h2, h3, h4]
+    · have h3 : ¬ (a.length : Int) < (b.length : Int) := by omega
+      have h4 : ¬ (a.length : Int) > (b.length : Int) := by omega
+      simp only [h1, h2, h3, h4, if_false]
+      cases hl : ltBytes a b with
+      | true => have := h.1.mpr hl; simp; omega
+      | false =>
+        have : ¬ cmp < 0 := fun hc => by have := h.1.mp hc; simp [hl] at this
+        simp; omega
+
+theorem tie_eq (a b : Image) (cmp : Int) (h : MemcmpResult a b cmp) :
+    Gen.SockAddrView_eq a.length b.length cmp = Addr.eq a b := by
+  unfold Gen.SockAddrView_eq Addr.eq
+  cases he : eqBytes a b with
+  | true =>
+    have hc : cmp = 0 := h.2.mpr he
+    by_cases hl : a.length = b.length
+    · have : (a.length : Int) = (b.length : Int) := by omega
+      simp [hl, hc]
+    · have : ¬ (a.length : Int) = (b.length : Int) := by omega
+      simp [hl, this]
+  | false =>
+    have hc : ¬ cmp = 0 := fun hc => by have := h.2.mp hc; simp [he] at this
+    have : ¬ (0 : Int) = cmp := fun h0 => hc h0.symm
+    simp [this]
+
+/-- the hypothesis of the two ties is satisfiable for every pair of images -/
+theorem ltBytes_not_eqBytes : ∀ (a b : List UInt8), ltBytes a b = true → eqBytes a b = false
+  | [], _, h => by simp [ltBytes] at h
+  | _ :: _, [], h => by simp [ltBytes] at h
+  | x :: xs, y :: ys, h => by
+    unfold ltBytes at h
+    unfold eqBytes
+    by_cases h1 : x < y
+    · have hne : x ≠ y := fun he => by subst he; exact UInt8.lt_irrefl _ h1
+      simp [hne]
+    · by_cases h2 : y < x
+      · simp [h1, h2] at h
+      · simp only [h1, h2, if_false] at h
+        simp [ltBytes_not_eqBytes xs ys h]
+
+theorem memcmpResult_exists (a b : Image) : ∃ cmp, MemcmpResult a b cmp := by
+  unfold MemcmpResult
+  cases hl : ltBytes a b with
+  | true =>
+    have := ltBytes_not_eqBytes a b hl
+    exact ⟨-1, by simp, by simp [this]⟩
+  | false =>
+    cases he : eqBytes a b with
+    | true => exact ⟨0, by simp, by simp⟩
+    | false => exact ⟨1, by simp, by simp⟩
+end SockModel.Props.C13
